@@ -32,7 +32,8 @@ def classify(prop, v, case):
 # ---- RegressionTreeBasedAL (G6 b/c): the leaf allocation path is taken with >= 2 labelled samples
 for _m in ("random", "diversity", "representativity"):
     def _rt(case, v, _m=_m):
-        return v.get("n_labeled_now", getattr(case, "n_labeled", 0)) >= 2 and case.entry.name == "RT_" + _m
+        return v.get("n_labeled_now", getattr(case, "n_labeled", 0)) >= 2 and (
+            case.entry.name == "RT_" + _m or (_m == "representativity" and case.entry.name == "RT_repr_iter1"))
     rule(None, "RegressionTreeBasedAL", None, "tree-path/%s (>=2 labelled)" % _m)(_rt)
 
 
